@@ -86,6 +86,33 @@ def _own_constructor_error():
     return _OWN_CTOR[0]
 
 
+class LooseStr(object):
+    """A value of a String field that is not a str: it prints as its text, and compares (and hashes) equal to every
+    other such value of the same length - equal values need not serialise alike (Decimal('1.10') == Decimal('1.1'))."""
+
+    def __init__(self, text):
+        self.text = text
+
+    def __str__(self):
+        return self.text
+
+    def __eq__(self, other):
+        return isinstance(other, LooseStr) and len(other.text) == len(self.text)
+
+    def __hash__(self):
+        return hash(("LooseStr", len(self.text)))
+
+
+def _loosen(v):
+    from ..core import h64
+
+    if isinstance(v, list):
+        return [_loosen(x) for x in v]
+    if isinstance(v, str) and int(h64(v)[:2], 16) % 3 == 0:
+        return LooseStr(v)
+    return v
+
+
 class _UpstreamResponse(object):
     def __init__(self, reason, extensions):
         self.reason, self.extensions = reason, extensions
@@ -396,6 +423,8 @@ class Binding(object):
             raise ResolverError(message_as_raised(out[1]), extensions=out[2])
         if out[0] == "crash":
             raise crash(out[1], getattr(self, "crash_class", None))
+        if getattr(self, "loose_strings", False) and S.unwrap(f.type) == "String":
+            return _loosen(self.to_python(out[1]))
         return self.to_python(out[1])
 
     def resolver_for(self, typename, fieldname):
